@@ -1,13 +1,15 @@
-From BT Require Import Base.ListX Base.Bits2 PduBuf.PduBufModel.
+From Coq Require Import Lia ZifyBool.
+From BT Require Import Base.ListX AttDb.AttDbModel NQueue.NQueueModel AttSrv.AttSrvModel AttSrv.AttSrvSpecC01 AttSrv.AttSrvProofsC01.
 Local Open Scope N_scope.
-Definition f2 hl len := Bool.eqb (N.land (hl + 256 * len) 65280 =? 0) (len =? 0).
-Lemma len_sweep_true : forallb (fun hl => forallb (f2 hl) (Nrange 256)) (Nrange 256) = true.
-Proof. vm_compute. reflexivity. Time Qed.
-Lemma len_sweep_spec hl len : hl < 256 -> len < 256 -> f2 hl len = true.
+Lemma good_rsp op out_size b m x t b0 :
+  put b0 0 (x :: t) = Some b -> x = op + 1 -> 1 <= m -> m <= out_size -> good op out_size (b, m).
+Proof. intros H Hx H1 H2. split; [exact H2|]. left. split; [exact H1|]. cbn [fst]. rewrite (put_zero _ _ _ _ H). exact Hx. Qed.
+Lemma read_common_good c st cid pdu b out_size rsp h index off op st' r :
+  23 <= out_size -> rd pdu 0 = Some op -> rsp = op + 1 ->
+  handle_read_common c st cid pdu b out_size rsp h index off = Some (st', r) -> good op out_size r.
 Proof.
-  intros H L. pose proof len_sweep_true as S. 
-  rewrite forallb_forall in S. 
-  pose proof (S hl (In_Nrange 256 hl H)) as S1. 
-  rewrite forallb_forall in S1. 
-  exact (S1 len (In_Nrange 256 _ L)).
-Time Qed.
+  intros Ho Hop Hr. unfold handle_read_common. rewrite Hop. intros H. mon.
+  apply access_read_len in E0.
+  destruct a0; mon.
+  - eapply good_rsp; eauto. Show.
+Abort.
